@@ -81,8 +81,9 @@ static int xattr_from_path(sqfs_xattr_writer_t *xwr, const char *path)
 			goto fail;
 		}
 
-		if (vallen > 0) {
-			value = calloc(1, vallen);
+		if (vallen >= 0) {
+			/* an empty value is a value, too */
+			value = calloc(1, vallen + 1);
 			if (value == NULL) {
 				perror("allocating xattr value buffer");
 				goto fail;
